@@ -96,8 +96,24 @@ func (Engine) Execute(c *core.Ctx) {
 	core.Bubble(c.T, func() { execute(c) })
 }
 
+func tmpDir(tag string) string {
+	base := os.Getenv("SIM_TMP")
+	if base == "" {
+		base = os.TempDir()
+	}
+	d := filepath.Join(base, fmt.Sprintf("chainsim-%s-%d", tag, os.Getpid()))
+	os.RemoveAll(d)
+	return d
+}
+
+func removeDir(d string) { os.RemoveAll(d) }
+
 func execute(c *core.Ctx) {
 	p := c.Plan
+	if p.Meta["mode"] == "store" {
+		executeStore(c)
+		return
+	}
 	steps := make([]Step, len(p.Steps))
 	for i, raw := range p.Steps {
 		if err := json.Unmarshal(raw, &steps[i]); err != nil {
